@@ -115,8 +115,11 @@ def _cubochoric_sampling_loop(semi_edge_steps: int) -> np.ndarray:
                 xyz[2] = k * step_size
 
                 # Discard the point and move to the next iteration if it
-                # lies outside the cubochoric cube
-                if np.max(np.abs(xyz)) > semi_edge_length:  # pragma: no cover
+                # lies outside the cubochoric cube. The tolerance (the
+                # same as in cu2ho_single()) keeps the points on the
+                # cube's faces, since semi_edge_steps * step_size can be
+                # slightly larger than semi_edge_length in floating point
+                if np.max(np.abs(xyz)) > semi_edge_length + 1e-8:  # pragma: no cover
                     continue
 
                 # Get quaternion via cubochoric coordinates -> Rodrigues
